@@ -54,6 +54,15 @@ def inner(case):
     else:
         challenge = 'tls-alpn-01'
         validate = {'alpn': {'kind': 'unix', 'path': sock_root + '/tacd_{identifier}.sock', 'idle_first': bool(case.get('idle_first'))}}
+    id_env = case.get('id_env') or {}
+    if id_env:
+        # some identifiers carry their own environment table: it outranks the certificate's for the hooks of that identifier
+        for x, ev in id_env.items():
+            if 'HTTP_ROOT' in ev and 'http_root' in validate:
+                os.makedirs(ev['HTTP_ROOT'], exist_ok=True)
+                validate.setdefault('http_root_by_id', {})[x] = ev['HTTP_ROOT']
+            if 'TACD_PORT' in ev and validate.get('alpn', {}).get('kind') == 'tcp':
+                validate['alpn'].setdefault('port_by_id', {})[x] = int(ev['TACD_PORT'])
     if case.get('tls') and 'alpn' in validate:
         # validation agents differ in the protocol versions they speak (RFC 8737 asks for TLS 1.2 or higher)
         validate['alpn'].update({'1.2': {'max_tls': '1.2'}}[case['tls']])
@@ -72,7 +81,7 @@ def inner(case):
         rec = C.rec_hook('rec', ['post-operation', 'file-post-create', 'file-post-edit'], dd + '/hooks.log')
         rec['args'] += ['ls:proofdir=' + proof_dir, 'stat:pidfile=' + pid_file, 'stat:sockfile=' + sock_file]
         for k, x in enumerate(idents[1:]):
-            rec['args'] += ['ls:proofdir%d=%s/%s/.well-known/acme-challenge' % (k + 1, http_root, x), 'stat:pidfile%d=%s/tacd_%s.pid' % (k + 1, pid_root, x),
+            rec['args'] += ['ls:proofdir%d=%s/%s/.well-known/acme-challenge' % (k + 1, (id_env.get(x) or {}).get('HTTP_ROOT', http_root), x), 'stat:pidfile%d=%s/tacd_%s.pid' % (k + 1, pid_root, x),
                             'stat:sockfile%d=%s/tacd_%s.sock' % (k + 1, sock_root, x)]
         hooks = [group] + (['git'] if case['git'] else []) + ['rec']
         c = {
@@ -84,7 +93,7 @@ def inner(case):
                          'env': {'VERIF_CERT': 'acct-acc1'}}],
             'certificate': [{'account': 'acc1', 'endpoint': 'ca1', 'name': 'c0', 'key_type': 'ecdsa_p256', 'hooks': hooks,
                              'env': dict({'VERIF_CERT': 'c0'}, **env),
-                             'identifiers': [{'dns': x, 'challenge': challenge} for x in idents]}],
+                             'identifiers': [dict({'dns': x, 'challenge': challenge}, **({'env': id_env[x]} if x in id_env else {})) for x in idents]}],
         }
         return c
 
@@ -182,6 +191,7 @@ def run_case(case):
     case['dir'] = d
     # scratch values for the variables that are set explicitly
     case['env'] = {k: (v.replace('$D', d)) for k, v in case['env_tpl'].items()}
+    case['id_env'] = {x: {k: v.replace('$D', d) for k, v in ev.items()} for x, ev in (case.get('id_env_tpl') or {}).items()}
     open(d + '/case.json', 'w').write(json.dumps(case))
     try:
         p = subprocess.run(['unshare', '-m', '-n', '--propagation', 'private', sys.executable, os.path.abspath(__file__), '--inner', d + '/case.json'],
@@ -216,6 +226,14 @@ def gen(tier, r):
         # some certificates have several identifiers (solved one after the other through the same group), some a name of more than 64 octets
         if k % 3 == 2:
             c['more'] = ['alt%d-%d.example.net' % (j, k) for j in range(1 + k % 2)]
+        if c.get('more') and group != 'tls-alpn-01-tacd-unix' and k % 2 == 0:
+            # the variable is set for the certificate and, differently, for one of its identifiers
+            if group == 'http-01-echo':
+                c['env_tpl'] = dict(env_tpl, HTTP_ROOT='$D/webroot')
+                c['id_env_tpl'] = {c['more'][0]: {'HTTP_ROOT': '$D/static-site'}}
+            else:
+                c['env_tpl'] = dict(env_tpl, TACD_PORT=port())
+                c['id_env_tpl'] = {c['more'][0]: {'TACD_PORT': port()}}
         if k % 5 == 3 and (group != 'tls-alpn-01-tacd-unix' or 'TACD_SOCK_ROOT' not in env_tpl):
             c['identifier'] = '%s.%s.c%d.example' % ('a' * 30, 'b' * 26, k)
         k += 1
@@ -229,6 +247,11 @@ def gen(tier, r):
     for http_root in (None, '$D/webroot'):
         for git in (False, True):
             add('http-01-echo', ({'HTTP_ROOT': http_root} if http_root else {}), git, 2)
+            cases[-1]['stale'] = True
+    # the same history for the responder groups: the responder of the attempt that broke off is still there when the next attempt starts one
+    for grp in ('tls-alpn-01-tacd-tcp', 'tls-alpn-01-tacd-unix'):
+        for git in (False, True):
+            add(grp, {'TACD_PORT': port()} if grp.endswith('tcp') else {}, git, 2)
             cases[-1]['stale'] = True
     # tacd over TCP: every subset of {TACD_HOST, TACD_PORT, TACD_PID_ROOT}
     for mask in range(8):
@@ -292,7 +315,7 @@ def run(tier):
         if c['git']:
             chk.count('git_files_checked', res.get('git_files', 0))
         if res.get('validations'):
-            chk.distinct.add((c['group'], tuple(sorted(c['env_tpl'])), c['git'], c['issuances'], c['identifier'].count('.') + 1, len(c.get('more') or []), len(c['identifier']) > 64, c.get('umask'), c.get('idle_first'), c.get('tls'), c.get('stale')))
+            chk.distinct.add((c['group'], tuple(sorted(c['env_tpl'])), c['git'], c['issuances'], c['identifier'].count('.') + 1, len(c.get('more') or []), bool(c.get('id_env_tpl')), len(c['identifier']) > 64, c.get('umask'), c.get('idle_first'), c.get('tls'), c.get('stale')))
         if not res['problems']:
             chk.sample({'group': c['group'], 'set': sorted(c['env_tpl']), 'git': c['git'], 'issuances': c['issuances'], 'identifier': c['identifier'],
                         'validations': [(v['type'], v['target'], v['ok']) for v in res['validations']][:3]})
@@ -305,7 +328,7 @@ def run(tier):
                           {k: v for k, v in res.items() if k not in ('replay_dir',)}, res.get('replay_dir'))
     chk.rule = ('each shipped group (http-01-echo, tls-alpn-01-tacd-tcp, tls-alpn-01-tacd-unix) alone and with git, every subset of its documented '
                 'environment variables set to scratch values / left to the documented default (/var/www, /run, identifier, 5001 inside a private mount and '
-                'network namespace), identifiers of 1-3 labels (some longer than 64 octets), certificates with 1-3 identifiers, 1-3 consecutive issuances validated for real by the mock CA (validation agents with library defaults or speaking TLS 1.2 at most; http-01 proofs met again after an attempt that broke off); distinct = cases with at least '
+                'network namespace), identifiers of 1-3 labels (some longer than 64 octets), certificates with 1-3 identifiers (one of them with an environment table of its own in some cases), 1-3 consecutive issuances validated for real by the mock CA (validation agents with library defaults or speaking TLS 1.2 at most; http-01 proofs met again after an attempt that broke off); distinct = cases with at least '
                 'one validation performed')
     chk.assumptions = ['unshare -m -n works (root)', 'the documented web-server mapping is <HTTP_ROOT>/<identifier>/.well-known/acme-challenge/<token>',
                        'tacd found through PATH is the binary built from /repo (release profile)']
